@@ -1,6 +1,6 @@
 (* C19 — the derivative checker accepts correct derivatives and pinpoints wrong ones.
    f is an arbitrary function, D an arbitrary candidate derivative (any dimensions). *)
-From Verif Require Import DerivCheck VecLemmas DerivProofs CorrDeriv.
+From Verif Require Import DerivCheck VecLemmas DerivProofs DerivProofs2 CorrDeriv.
 
 (* 1. an error identifies the FIRST column containing a failing entry and exactly the failing rows of it *)
 Theorem C19_error_pinpoints : forall f x D eps atol cols rows i,
@@ -36,6 +36,25 @@ Theorem C19_single_corruption_detected : forall f x (D : mat) eps atol r c d n,
                /\ forall r', In r' rows <-> r' = r.
 Proof. exact single_corruption_detected. Qed.
 
+(* 4. the checker's silence is informative: acceptance is EXACTLY "no checked column has a failing row", so after
+      an accepted check every compared entry passed the closeness test; and with ANY number of wrong entries,
+      whenever some checked column has a failing row the checker raises and reports a genuine failing column
+      with exactly its failing rows *)
+Theorem C19_accepted_iff_all_clean : forall f x D eps atol cols,
+  check_cols f x D eps atol cols = None
+  <-> forall k, In k cols -> bad_rows atol (col k D) (fd_col f x k eps) = [].
+Proof. exact accepted_iff. Qed.
+Theorem C19_accepted_entries_close : forall f x D eps atol cols,
+  check_cols f x D eps atol cols = None ->
+  forall k r, In k cols -> (r < length (col k D))%nat -> (r < length (fd_col f x k eps))%nat ->
+    isclose atol (nth r (col k D) 0) (nth r (fd_col f x k eps) 0) = true.
+Proof. exact accepted_entries_close. Qed.
+Theorem C19_any_bad_column_raises : forall f x D eps atol cols k,
+  In k cols -> bad_rows atol (col k D) (fd_col f x k eps) <> [] ->
+  exists rows i, check_cols f x D eps atol cols = Some (rows, i)
+    /\ In i cols /\ rows = bad_rows atol (col i D) (fd_col f x i eps) /\ rows <> [].
+Proof. exact any_bad_column_raises. Qed.
+
 (* non-vacuity: f(x) = (x0^2, x0 x1) at (1, 2), Jacobian entry (1,0) corrupted by 1 *)
 Example C19_nonvacuous :
   let f := fun z : vec => [nth 0 z 0 * nth 0 z 0; nth 0 z 0 * nth 1 z 0] in
@@ -48,3 +67,6 @@ Print Assumptions C19_reported_rows.
 Print Assumptions C19_correct_accepted.
 Print Assumptions C19_within_tolerance_is_close.
 Print Assumptions C19_single_corruption_detected.
+Print Assumptions C19_accepted_iff_all_clean.
+Print Assumptions C19_accepted_entries_close.
+Print Assumptions C19_any_bad_column_raises.
